@@ -48,6 +48,7 @@ class FnContract:
     ghost: dict = field(default_factory=dict)  # statement text -> [ghost assignment statements] run after it
     runtime: object = None  # Runtime: generator of real inputs for cross-check / replay
     alias_ok: tuple = ()
+    comp_membership: bool = False  # list comprehensions also get `y in result => y == body(i) for some passing i` (extra quantified fact)
     merge_branches: bool = True  # False: keep the paths of every `if` apart (more obligations, simpler terms)
 
     @property
